@@ -102,7 +102,8 @@ def job_fn(job):
             warnings.simplefilter('ignore')
             try:
                 df = ct.run(simulation_time=0.75, step_size=0.25, outputs=outputs, vectorize=vec, verbose=False,
-                            in_place=False, float_precision='float64', solver='euler', clear=False)
+                            in_place=False, float_precision='float64', solver='euler', clear=False,
+                            **job.get('run_kw', {}))
             except Exception as e:   # noqa
                 out['compile_error'] = f"{type(e).__name__}: {e}"
                 out['tally'] = tally.as_dict()
@@ -249,6 +250,12 @@ def run(tier='quick', seed=0, only=None, verbose=False):
             for vec in (True, False):
                 jobs.append(dict(key=f"upd:shared={shared}|update_var:{upd[0]}|vec={vec}", spec=spec, vectorize=vec,
                                  outputs={'w': 'all/o1/x', 'v': 'all/li/x'}, update=init + [upd]))
+    # edge paths inside one vectorized group, written down in target order, with the index-based edge code forced
+    for key, spec in families.fam_projections(seed, n=4)[:4]:
+        if ':perm' in key or ':reverse' in key or ':two_rings' in key:
+            for ri, req in enumerate(requests_for(spec)[:2]):
+                jobs.append(dict(key=f"{key}|index-branch|req{ri}|vec=True", spec=spec, outputs=req, vectorize=True,
+                                 run_kw=dict(matrix_sparseness=1.0)))
     # three levels, the mid-level and the leaf circuit each ONE object under two keys
     spec, fp = base_spec(True, 2, same_sub=True)
     init = [('all/all/all/o1/x', [fp() for _ in range(8)]), ('all/all/all/li/x', [fp() for _ in range(4)])]
